@@ -7,6 +7,7 @@
             | 7 | 8 | 9 lvl | 10 lvl | 11 from | 12 | 13 | 14  (PCreate .. PCxxRelease in the order of LifeDefs.prim)
             | 20 shape has_src [path] path                  (HRet; shape = index in all_rshapes)
             | 21 rv [shape] path path has [path] has [path] (HBind; rv 0 = no, 1 = yes, 2 = that of the shape; the two optional save places)
+            | 22 path                                       (HReseat)
    output ::= items separated by spaces: a number (Live n), UAF, BAD<code>, FAULT; "PARSE" if the line is malformed *)
 From Coq Require Import List Bool Arith String ZArith.
 From ChaiV Require Import StrUtil LifeDefs.
@@ -65,6 +66,7 @@ Definition parse_op (l : list nat) : option (hop * list nat) :=
                  | None => None end
           end
       end
+  | 22 :: r => match parse_path r with Some (p, r1) => Some (HReseat p, r1) | None => None end
   | 21 :: rv :: r =>
       let opt_path r0 :=
         match r0 with
